@@ -113,6 +113,8 @@ def explore(func, params, limits, seed=0, validate_every=1, max_validate=400):
                   max_decisions=limits.get("max_decisions", 4000),
                   concretize_cap=limits.get("concretize_cap", 300), seed=seed)
     ctx.fast_ms = limits.get("fast_ms", 3000)
+    ctx.crosscheck_every = limits.get("crosscheck_every", 0)
+    ctx.crosscheck_max = limits.get("crosscheck_max", 0)
     max_paths = limits.get("max_paths", 200000)
     deadline = time.time() + limits.get("job_timeout_s", 3600)
     res = dict(paths=0, violations=[], inconclusive=[], mismatches=[], validated=0, samples=[],
